@@ -150,6 +150,31 @@ func Family(maxRecs int) []File {
 			fs = append(fs, f)
 		}
 	}
+	// blocks whose bytes on the wire exceed 64 KiB (the reader's chunk size), after smaller ones and before a
+	// smaller one: the read buffer must grow while part of the block is already in it; pseudo-random payloads
+	// keep the compressed blocks above 64 KiB too
+	{
+		sc := Schemas()[2]
+		rnd := uint32(12345)
+		mk := func(n int) string {
+			b := make([]byte, n)
+			for i := range b {
+				rnd = rnd*1664525 + 1013904223
+				b[i] = byte(rnd >> 24)
+			}
+			return string(b)
+		}
+		recs := make([]ref.Datum, 0, 96)
+		for i := 0; i < 96; i++ {
+			recs = append(recs, ref.DRecord(ref.DString(fmt.Sprintf("r%03d", i)), ref.DBytes(mk(1200+i))))
+		}
+		for _, codec := range []string{"null", "deflate", "snappy"} {
+			f := Build(sc, codec, []int{3, 90, 3}, recs)
+			f.Name += "/large-wire-block"
+			f.Big = true
+			fs = append(fs, f)
+		}
+	}
 	sc := Schemas()[1]
 	for _, codec := range []string{"null", "deflate", "snappy"} {
 		recs := make([]ref.Datum, 71)
